@@ -103,13 +103,13 @@ def ref_diag(node, rm):
                 has = True
             if isinstance(t, tuple):
                 inv = rm.inverted(r) and not rm.noop
-                tr = (t[0], r[:-3], v) if inv else (v, r, t[0])
+                tr = (t[0], rm.invert_role(r), v) if inv else (v, r, t[0])
                 rows.append((tr, v, t[0], inv))
                 walk(t)
             else:
                 a, _ = interp.split_atom(t)
                 inv = rm.inverted(r) and a in variables and not rm.noop
-                tr = (a, r[:-3], v) if inv else (v, r, a)
+                tr = (a, rm.invert_role(r), v) if inv else (v, r, a)
                 rows.append((tr, v, None, inv))
         if not has:
             rows.insert(start, ((v, ':instance', None), v, None, False))
